@@ -110,22 +110,22 @@ func genPool(t *rapid.T) poolCase {
 		}
 		var op poolOp
 		switch k := rapid.IntRange(0, 99).Draw(t, "op"); {
-		case k < 32:
+		case k < 28:
 			op = poolOp{Kind: "get"}
 			if rapid.IntRange(0, 5).Draw(t, "ff") == 0 {
 				op.N = rapid.IntRange(1, 3).Draw(t, "fails")
 			}
-		case k < 35:
+		case k < 31:
 			op = poolOp{Kind: "get_expired"}
 		case k < 58:
 			op = poolOp{Kind: "put", Idx: rapid.IntRange(0, 7).Draw(t, "idx")}
-		case k < 64:
+		case k < 63:
 			op = poolOp{Kind: "put_nil", Idx: rapid.IntRange(0, 7).Draw(t, "idx")}
-		case k < 69:
+		case k < 67:
 			op = poolOp{Kind: "timeout", Idx: rapid.IntRange(0, 3).Draw(t, "idx")}
 		case k < 79:
 			op = poolOp{Kind: "setcap", N: rapid.IntRange(1, c.Max).Draw(t, "n")}
-		case k < 87:
+		case k < 88:
 			op = poolOp{Kind: "sweep"}
 		default:
 			op = poolOp{Kind: "scalein"}
@@ -212,7 +212,7 @@ var dumpBuf = make([]byte, 1<<20)
 
 var (
 	markPool   = []byte("util.(*ResourcePool)")
-	markWorker = []byte("props/c24.runWorker")
+	markWorker = []byte("props/c24.(*runner).spawn") // also matches a worker that has not started running yet
 )
 
 // parked reports whether every goroutine that is inside the pool, or is one of
@@ -372,7 +372,11 @@ func (h *history) collect() {
 		switch w.kind {
 		case "get":
 			if w.panicked != "" {
-				h.fail("get_panic", "Get panicked: %s", w.panicked)
+				kind := "get_panic"
+				if strings.Contains(w.panicked, "send on closed channel") {
+					kind = "put_closed_chan" // the failed Get puts its slot back into the closed channel
+				}
+				h.fail(kind, "Get panicked: %s", w.panicked)
 				continue
 			}
 			if w.err != nil {
@@ -671,19 +675,24 @@ func checkPool(c poolCase) (o pbt.Outcome) {
 			h.fail("stuck", "every connection has been returned and no Get is waiting, but these operations never complete: %s (capacity %d, %d idle slots)", strings.Join(kinds, ","), rp.Capacity(), rp.VerifChanLen())
 		}
 	}
+	// leave no goroutines behind (the verdict is already fixed): parked Gets time out, held
+	// connections go back, the pool is closed
+	for _, w := range r.workers {
+		if w.cancel != nil {
+			w.cancel()
+		}
+	}
+	for _, f := range h.held {
+		f := f
+		pbt.Catch(func() { rp.Put(f) })
+	}
+	h.held = nil
 	if !h.closing {
-		// leave no goroutines behind
 		done := make(chan struct{})
-		go func() { rp.Close(); close(done) }()
+		go func() { pbt.Catch(rp.Close); close(done) }()
 		select {
 		case <-done:
-		case <-time.After(5 * time.Second):
-		}
-	} else {
-		for _, w := range r.workers {
-			if w.cancel != nil {
-				w.cancel()
-			}
+		case <-time.After(200 * time.Millisecond):
 		}
 	}
 	for l := range h.lbl {
